@@ -35,6 +35,13 @@
    and further transports / deployments (XTransports): "unix", "tcp" (socket pairs), "shm" (pipe with the shared
    memory side channel), "pipehook" / "httphook" (a dispatch hook -- the otel / sentry extension point -- whose
    start and end callbacks raise), "httpsticky" (sticky-session middleware enabled), "httpplain" (no compression).
+   Response caps (CapTransports): "httptight" = HTTP with max_response_bytes = 16 KiB, "httptightx" = the same
+   plus max_externalized_response_bytes = 16 KiB.  On them every point of the reduced grid is taken with an error
+   body UNDER the cap (chain "none": about 2-3 kB) and OVER it (chain "cause": the 20 kB cause text makes the
+   EXCEPTION batch > 30 kB), at every site: unary, init, first / later producer step, exchange turn.  Caps bound
+   results (C16); an implementation's error reaches the client faithfully whatever they are -- a too-large error body
+   must not be swapped for a synthetic "body exceeds max_response_bytes" error.  (Successful steps before the raise
+   stay far below the cap, so no legitimate overshoot interferes.)
    The statement is universal, so every coordinate has the same expected outcome.
 
    Normative sources: the property statement; docs/WIRE_PROTOCOL.md section 8 ("The client MUST raise/throw
@@ -46,7 +53,8 @@ EXTENDS Naturals, Sequences, FiniteSets
 CONSTANTS Builtins, UserClasses, TypedClasses, MsgClasses, Transports,
           StreamSites,    \* subset of AllStreamSites explored in this run
           VClasses, VMsgClasses,         \* reduced class / message sets for the one-at-a-time variations
-          XMsgClasses, XTransports, Chains, Depths, Modes     \* the variations explored in this run (may be empty)
+          XMsgClasses, XTransports, Chains, Depths, Modes,    \* the variations explored in this run (may be empty)
+          CapTransports                  \* HTTP deployments with tight response caps (error body under / over the cap)
 
 \* ------------------------------------------------------------------ normative kind table (WIRE_PROTOCOL section 8)
 WellKnownKinds == {"method_not_implemented", "protocol_version_mismatch", "session_lost", "server_draining"}
@@ -66,7 +74,10 @@ AllStreamSites == {"init", "init_log", "p1", "p1_log", "p1_emit", "p2", "p2_log"
 ASSUME StreamSites \subseteq AllStreamSites
 SitesOf(shape) == IF shape = "unary" THEN {"call", "call_log"} ELSE StreamSites
 AllClasses == Builtins \cup UserClasses \cup TypedClasses
-HttpTransports == {"http", "httpbuf", "httpsticky", "httpplain", "httphook"}
+HttpTransports == {"http", "httpbuf", "httpsticky", "httpplain", "httphook", "httptight", "httptightx"}
+ASSUME CapTransports \subseteq {"httptight", "httptightx"}
+\* is the error body of case x larger than the 16 KiB cap of the tight deployments
+OverCap(x) == x.chain = "cause" \/ x.depth = "deep" \/ x.msg = "long"
 SockTransports == {"pipe", "unix", "tcp", "shm", "pipehook"}
 IsHttp(tr) == tr \in HttpTransports
 ProdShapes == {"prod", "prodh"}
@@ -84,11 +95,15 @@ VGrid(ts) == Grid(VClasses, VMsgClasses, ts)
 \* max_response_bytes (it raises RuntimeError otherwise, by design) -- so not on "httpbuf"
 TokenTransports == HttpTransports \ {"httpbuf"}
 ModeOK(x, md) == x.shape \in ProdShapes /\ (IF md = "token" THEN x.tr \in TokenTransports ELSE ~IsHttp(x.tr))
+CapCases == {[x EXCEPT !.chain = ch] : x \in Grid(VClasses, {"ascii"}, CapTransports), ch \in {"none", "cause"}}
 Variants ==
        VGrid(XTransports) \cup Control(XTransports)
   \cup Grid(VClasses, XMsgClasses, Transports)
   \cup {[x EXCEPT !.chain = ch] : x \in VGrid(Transports), ch \in Chains \ {"none"}}
   \cup {[x EXCEPT !.depth = dp] : x \in VGrid(Transports), dp \in Depths \ {"shallow"}}
+  \* tight caps: short-message grid points, error body under (no chain) and over (20 kB cause) the cap
+  \cup CapCases
+  \cup Control(CapTransports)
   \cup UNION {{[x EXCEPT !.mode = md] : x \in {y \in VGrid(Transports) \cup Control(Transports) : ModeOK(y, md)}}
               : md \in Modes \ {"iter"}}
 Cases == Base \cup Variants
@@ -110,6 +125,10 @@ CoordsValid(c)     == /\ c.tr \in HttpTransports \cup SockTransports
                       /\ c.depth \in {"shallow", "deep"}
                       /\ (c.mode = "token" => (c.tr \in TokenTransports /\ c.shape \in ProdShapes))
                       /\ (c.mode = "foriter" => (~IsHttp(c.tr) /\ c.shape \in ProdShapes))
+\* on a capped deployment both sides of the cap are explored, at every shape and site
+CapBothSides(c)    == (c.tr \in CapTransports /\ Fails(c)) =>
+                        LET d == [c EXCEPT !.chain = IF c.chain = "none" THEN "cause" ELSE "none"] IN
+                          d \in CapCases /\ OverCap(d) # OverCap(c)
 \* a variation changes exactly one coordinate of a grid point
 OneAtATime(c)      == Cardinality({k \in {"mode", "chain", "depth"} : c[k] # Dflt[k]}) <= 1
 GroupsDisjoint(c)  == Cardinality({g \in {Builtins, UserClasses, TypedClasses} : c.cls \in g}) = (IF Fails(c) THEN 1 ELSE 0)
